@@ -345,8 +345,34 @@ func checkCLITarget(c *Ctx, r *Report) {
 	if targetParam == nil && len(dp.Params) == 3 {
 		targetParam, packagerParam = dp.Params[1], dp.Params[2]
 	}
-	phi, ok := create.Call.Args[0].(*ssa.Phi)
-	if !ok {
+	cliPA := newProv(c)
+	// resolve a helper's parameter to the argument it is given, stopping at
+	// doPackage's own parameters
+	up := func(v ssa.Value) ssa.Value {
+		for i := 0; i < 4; i++ {
+			prm, ok := v.(*ssa.Parameter)
+			if !ok || prm.Parent() == dp {
+				return v
+			}
+			fn := prm.Parent()
+			idx := -1
+			for j, q := range fn.Params {
+				if q == prm {
+					idx = j
+				}
+			}
+			sites := cliPA.callSites(fn)
+			if len(sites) != 1 || idx < 0 || idx >= len(sites[0].Common().Args) {
+				return v
+			}
+			v = sites[0].Common().Args[idx]
+		}
+		return v
+	}
+	var phi ssa.Value = create.Call.Args[0]
+	switch phi.(type) {
+	case *ssa.Phi, *ssa.Call:
+	default:
 		r.Fail("CLI-target", "doPackage: path handed to os.Create", c.instrPos(create), "expected the join of the three target forms (given file, conventional name, directory + conventional name)")
 		return
 	}
@@ -363,17 +389,26 @@ func checkCLITarget(c *Ctx, r *Report) {
 				flatten(e, x.Block().Preds[i], depth+1)
 			}
 		case *ssa.Parameter:
-			if x == targetParam {
+			if x == targetParam || up(x) == ssa.Value(targetParam) {
 				kinds["given"] = true
 			} else {
 				kinds["other-param"] = true
 			}
 		case *ssa.Call:
+			// a helper of the command that computes the path: its returns
+			if sc := x.Call.StaticCallee(); sc != nil && sc.Blocks != nil && c.isModuleFunc(sc) && !x.Call.IsInvoke() && strings.HasPrefix(c.funcPkgPath(sc), modPath+"/internal/cmd") {
+				for _, b := range sc.Blocks {
+					if ret, ok := b.Instrs[len(b.Instrs)-1].(*ssa.Return); ok {
+						flatten(retResults(ret)[0], b, depth+1)
+					}
+				}
+				return
+			}
 			switch {
 			case x.Call.IsInvoke() && x.Call.Method.Name() == "ConventionalFileName":
 				// must be on the target == "" edge
 				if edgeOfTest(from, func(bo *ssa.BinOp) bool {
-					return bo.Op == token.EQL && bo.X == ssa.Value(targetParam) && constOrEmpty(bo.Y) == "" && isConstString(bo.Y)
+					return bo.Op == token.EQL && (bo.X == ssa.Value(targetParam) || up(bo.X) == ssa.Value(targetParam)) && constOrEmpty(bo.Y) == "" && isConstString(bo.Y)
 				}) {
 					kinds["conventional"] = true
 				} else {
@@ -381,7 +416,7 @@ func checkCLITarget(c *Ctx, r *Report) {
 				}
 			case calleeIs(x, "path", "", "Join") || calleeIs(x, "path/filepath", "", "Join"):
 				elems := variadicOrdered(x.Call.Args[0])
-				okJ := len(elems) == 2 && elems[0] == ssa.Value(targetParam)
+				okJ := len(elems) == 2 && (elems[0] == ssa.Value(targetParam) || up(elems[0]) == ssa.Value(targetParam))
 				if okJ {
 					if c2, ok := elems[1].(*ssa.Call); !ok || !c2.Call.IsInvoke() || c2.Call.Method.Name() != "ConventionalFileName" {
 						okJ = false
@@ -404,13 +439,19 @@ func checkCLITarget(c *Ctx, r *Report) {
 		fmt.Sprintf("forms found {%s} %v; expected exactly: the given target, the conventional name when no target is given, and Join(target, conventional name) when the target is a directory", joinSorted(kinds), detail))
 	// "is a directory" is decided by os.Stat (which follows symbolic links)
 	okStat := false
-	forEachInstr(dp, func(in ssa.Instruction) {
+	var cmdFns []*ssa.Function
+	for _, fn := range sortedFuncs(c, c.Reach(dp)) {
+		if strings.HasPrefix(c.funcPkgPath(fn), modPath+"/internal/cmd") {
+			cmdFns = append(cmdFns, fn)
+		}
+	}
+	forEachInstrIn(cmdFns, func(in ssa.Instruction) {
 		call, ok := in.(*ssa.Call)
 		if !ok || !call.Call.IsInvoke() || call.Call.Method.Name() != "IsDir" {
 			return
 		}
 		if ex, ok := call.Call.Value.(*ssa.Extract); ok {
-			if st, ok := ex.Tuple.(*ssa.Call); ok && calleeIs(st, "os", "", "Stat") && st.Call.Args[0] == ssa.Value(targetParam) {
+			if st, ok := ex.Tuple.(*ssa.Call); ok && calleeIs(st, "os", "", "Stat") && (st.Call.Args[0] == ssa.Value(targetParam) || up(st.Call.Args[0]) == ssa.Value(targetParam)) {
 				okStat = true
 			}
 		}
@@ -452,17 +493,29 @@ func checkCLITarget(c *Ctx, r *Report) {
 	// packager from the extension only when none is given
 	okInfer := false
 	inferred := 0
-	forEachInstr(dp, func(in ssa.Instruction) {
+	forEachInstrIn(cmdFns, func(in ssa.Instruction) {
 		call, ok := in.(*ssa.Call)
 		if !ok || !calleeIs(call, "path/filepath", "", "Ext") {
 			return
 		}
 		inferred++
-		if call.Call.Args[0] != ssa.Value(targetParam) {
+		if call.Call.Args[0] != ssa.Value(targetParam) && up(call.Call.Args[0]) != ssa.Value(targetParam) {
 			return
 		}
-		// the block is on the packager == "" edge
-		for d := call.Block(); d != nil; d = d.Idom() {
+		// the block - or, when the lookup sits in a helper, the helper's call
+		// in doPackage - is on the packager == "" edge
+		at := ssa.Instruction(call)
+		for hop := 0; hop < 3 && at.Parent() != dp; hop++ {
+			sites := cliPA.callSites(at.Parent())
+			if len(sites) != 1 {
+				return
+			}
+			at = sites[0]
+		}
+		if at.Parent() != dp {
+			return
+		}
+		for d := at.Block(); d != nil; d = d.Idom() {
 			for _, p := range d.Preds {
 				if ifi, ok := p.Instrs[len(p.Instrs)-1].(*ssa.If); ok && p.Succs[0] == d {
 					if bo, ok := ifi.Cond.(*ssa.BinOp); ok && bo.Op == token.EQL && bo.X == ssa.Value(packagerParam) && isConstString(bo.Y) && constOrEmpty(bo.Y) == "" {
